@@ -19,18 +19,27 @@
      (f) hence it is accepted and parses to EXACTLY the tree that was printed, and printing that tree again
          gives the same text (C04_print_parse_roundtrip, C04_print_fixed_point) — unbounded over tables,
          scripts, nesting depth, values.
-   Not proved: trees that are not in canonical form (arguments given in another order, repeated tags — the
-   printed text is then a different script with the same maps; equality of maps, not of trees), multi-line
-   strings, the commands outside wf_def (known findings).  The printer model is tied to commands.py by
-   comparing the printed text of every accepted input, and the round trip itself (print, re-parse, compare
-   trees as maps, print again, compare text) is evaluated on the implementation over enumerations, generated
+     (g) every legal argument list has a canonical reordering with the same meaning (sieve/CanonFacts.v:
+         C04_legal_canonical -- the arguments read off the maps in definition order are legal again and give
+         maps with the same value under every key), hence every script of the grammar has a canonical twin
+         whose tree has the same content and the SAME printed text (sieve/CanonTree.v), and so for EVERY
+         printable script of the grammar, whatever the order of its arguments and with repeated tags: the
+         printed text of its tree is accepted, parses to a tree with the same content [nsim] (same
+         definitions, same value under every key, same nesting and order), and printing that tree gives the
+         same text (C04_print_parse_general).  Table conditions [tbl_ok] (names consistent and identifiers,
+         argument names distinct, no slot taking both numbers and strings) are re-checked by computation on
+         the tables regenerated from /repo.
+   Not proved: multi-line (`text:`) values in the printing theorems, the commands outside wf_def (known
+   findings).  The printer model is tied to commands.py by comparing the printed text of every accepted
+   input, and the round trip itself (print, re-parse, compare trees as maps, print again, compare text) is
+   evaluated on the implementation over enumerations, generated
    scripts, layouts, mutants, repeated tags and a quoting-edge value generator. *)
 From Coq Require Import String.
 From Coq Require Import List NArith Bool Arith.
 From SV Require Import Bytes Lexer Tables ArgCheck ArgSpec Machine Printer GenTables.
 Import ListNotations.
 Local Open Scope nat_scope.
-From SV Require Import TotalFacts LexerFacts CompleteFacts CompleteTree CompleteExamples RenderFacts PrintTree PrintExamples.
+From SV Require Import TotalFacts LexerFacts CompleteFacts CompleteTree CompleteExamples RenderFacts PrintTree CanonFacts CanonTree PrintExamples.
 
 (* every string token delivered by the lexer is an exact string token *)
 Theorem C04_lexed_strings_exact :
@@ -135,6 +144,54 @@ Theorem C04_print_fixed_point :
   end.
 Proof. exact PrintTree.print_fixed_point. Qed.
 Print Assumptions C04_print_fixed_point.
+
+(* the canonical reordering of a legal argument list: legal again, same content, and it is what the maps say in definition order *)
+Theorem C04_legal_canonical :
+  forall (d : cmddef) (L : list bytes) (args : list argument) (am em : list (bytes * aval)),
+  wf_def d = true ->
+  def_ok d = true ->
+  Forall argP args ->
+  legal d L args = LComplete am em ->
+  exists (cargs : list argument) (am' em' : list (bytes * aval)),
+    legal d L cargs = LComplete am' em' /\
+    meq am' am /\ meq em' em /\ slots_args d am em (d_args d) cargs /\ Forall argP cargs.
+Proof. exact CanonFacts.legal_canonical. Qed.
+Print Assumptions C04_legal_canonical.
+
+(* every well-formed printable script has a canonical twin: same content, same printed text *)
+Theorem C04_canonical_twin :
+  forall T : tables,
+  tbl_ok T = true ->
+  forall (L : list bytes) (prev : option bytes) (cs : list gcmd) (ns : list node)
+    (L' : list bytes), wf_cmds T L prev cs ns L' -> Qcs T L prev cs ns L'.
+Proof. exact CanonTree.canon_of_cmds. Qed.
+Print Assumptions C04_canonical_twin.
+
+(* tree level, whole grammar, any argument order: parse (print tree) has the same content as tree and prints to the same text *)
+Theorem C04_print_parse_general :
+  forall T : tables,
+  tbl_ok T = true ->
+  twf_tables T = true ->
+  forall (cs : list gcmd) (ns : list node) (L' : list bytes) (f : nat),
+  wf_cmds T [] None cs ns L' ->
+  Forall cmd_pr cs ->
+  cs <> [] ->
+  fold_right (fun (x : gcmd) (m : nat) => Nat.max (dc x) m) 0 cs <= f ->
+  exists ns' : list node,
+    parse T (tosieve_all f ns) = Accept ns' /\
+    Forall2 nsim ns' ns /\ tosieve_all f ns' = tosieve_all f ns.
+Proof. exact CanonTree.print_parse_general. Qed.
+Print Assumptions C04_print_parse_general.
+
+(* non-vacuity: a script with upper-case names, tags out of order and a repeated tag *)
+Theorem C04_example_general :
+  forall (ns : list node) (L' : list bytes),
+  wf_cmds gen_tables [] None ex2_script ns L' ->
+  exists ns' : list node,
+    parse gen_tables (tosieve_all 5 ns) = Accept ns' /\
+    Forall2 nsim ns' ns /\ tosieve_all 5 ns' = tosieve_all 5 ns.
+Proof. exact PrintExamples.ex2_roundtrip. Qed.
+Print Assumptions C04_example_general.
 
 (* non-vacuity on the tables generated from /repo: the tree of the example script (require, if/elsif/else, anyof, not, nested blocks, tags with parameters, numbers, lists) is canonical *)
 Theorem C04_example_canonical :
